@@ -39,6 +39,9 @@ def _work(item):
             res, tree = G.explore_and_validate(mol, g, max_nodes=params.get("max_nodes", 3000),
                                                max_seconds=params.get("max_seconds", 25), qgrid=params.get("qgrid"),
                                                tag="tree")
+        elif mode == "sto-entry":
+            res, tree = G.explore_and_validate(mol, g, max_nodes=params.get("max_nodes", 3000),
+                                               max_seconds=params.get("max_seconds", 25), tag="stoentry", entry="Stochastic")
         elif mode == "stage":
             res, tree = G.explore_and_validate(mol, g, max_nodes=params.get("max_nodes", 3000),
                                                max_seconds=params.get("max_seconds", 25), tag="stage", call=G.stagewise)
@@ -139,6 +142,10 @@ def build_items(prop, tier, rnd):
     big = dict(max_nodes=4000, max_seconds=25) if tier == "quick" else dict(max_nodes=40000, max_seconds=240)
     for m in core:
         items.append((m, "tree", big))
+    # the README's other entry point: a molecule that is a single stochastic object generated through Stochastic(text, 0)
+    for m in core:
+        if len(m.elems) == 1 and not isinstance(m.elems[0], I.Token) and not m.name.startswith("neg"):
+            items.append((m, "sto-entry", dict(max_nodes=1500, max_seconds=12)))
     n_rand = 24 if tier == "quick" else 160
     for k in range(n_rand):
         items.append((I.random_instance(rnd, "small"), "tree", big))
